@@ -503,7 +503,7 @@ pub fn table() -> Vec<Case> {
 
 pub fn run(ctx: &Ctx) {
     crate::calendar::self_test();
-    ctx.rule("timestamps of years 1..9999 (0, +-1, +-86400, 2^31-1, 2^31, 2^32, year ends, negative, random) as 'N [to] date' and 'N [to] Z'; dates in every C09 spelling 'as|to|into|in unix|unixtime|unixtimestamp' (also without connective); times [with zone] as unix; date-times bound to a variable ('x = D at T', 'x = D at H') as unix; inverse forms 'N to date as unix', 'x = N to date; x as unix', 'D as unix to date'; default zone from a pool, explicit zones from the table and GMT forms; oracle: independent civil-from-days arithmetic: AST instant = N and zone = default/requested, printed fields = instant shifted by the zone offset, D as unix = 86400*days(D) whatever the configured zone, time as unix = instant of the operand evaluated alone, inverses return N exactly, printed timestamp = every digit of N; non-trivial = |N| > 86400 and (zone offset != 0 or N < 0 or N >= 2^31)");
+    ctx.rule("timestamps of years 1..9999 (0, +-1, +-86400, 2^31-1, 2^31, 2^32, year ends, negative, random) as 'N [to] date' and 'N [to] Z'; dates in every C09 spelling 'as|to|into|in unix|unixtime|unixtimestamp' (also without connective); times [with zone] as unix; date-times bound to a variable ('x = D at T', 'x = D at H') as unix; inverse forms 'N to date as unix', 'x = N to date; x as unix', 'D as unix to date'; default zone from a pool, explicit zones from the table and GMT forms; date-times whose time carries an explicit zone ('x = D at T Z', x as unix): the instant is that wall clock at that offset on day D (asserted when its UTC clock stays on D) and is the same under every default zone; oracle: independent civil-from-days arithmetic: AST instant = N and zone = default/requested, printed fields = instant shifted by the zone offset, D as unix = 86400*days(D) whatever the configured zone, time as unix = instant of the operand evaluated alone, inverses return N exactly, printed timestamp = every digit of N; non-trivial = |N| > 86400 and (zone offset != 0 or N < 0 or N >= 2^31)");
     ctx.assume("'in' is not written directly after a number (it would read as the unit inch); N outside years 1..9999 belongs to C01");
     ctx.run_table(&Unix, "boundary-table", table(), true);
     ctx.run_generated(&Unix, ctx.tier.pick(80_000, 800_000), case_strategy);
